@@ -81,7 +81,28 @@ _add(PropertySpec(
     targets=[f"{CR}:reconcile_lca", "lemma_lcamap_root", "lemma_lcamap_common", "lemma_lcamap_deepest",
              f"{TR}:LowestCommonAncestor.is_ancestor_of"],
     level="proof", standins=["reconcile_lca:optimal-and-unique-vs-brute-force"],
+    bounded_targets=[f"{TR}:LowestCommonAncestor.__call__"],
     technique="contract-based deductive verification of clauses 1-2 (LCA mapping, validity); optimality/uniqueness: bounded stand-in only",
     not_decided=["minimum cost among all reconciliations for any dup/loss >= 0, unique when loss > 0: a theorem about the duplication-loss model, "
                  "not expressible as a contract on reconcile_lca; bounded comparison with brute force only"],
+))
+
+CE = "superrec2.compute.exhaustive"
+_add(PropertySpec(
+    "C01", files=["compute_reconciliation"],
+    targets=[f"{MRC}:ReconciliationOutput.node_event", f"{MRC}:ReconciliationOutput._cost_rec", f"{MRC}:ReconciliationOutput.cost"],
+    level="exploration", standins=["reconciliation:thl-exh-vs-brute-force"],
+    technique="bounded stand-in (thl / exhaustive / generate_all against an independent brute-force enumeration and recount) "
+              "plus contract-based deductive verification of the cost evaluator the solvers re-rank with; the THL table contracts are not discharged yet",
+    not_decided=["Bellman contracts of _compute_thl_try_speciation / _compute_thl_try_duplication_transfer / _compute_thl_table / _decode_thl_table, "
+                 "reconcile_thl, reconcile_exhaustive and generate_all are NOT discharged: bounded stand-in only"],
+))
+_add(PropertySpec(
+    "C05", files=["compute_reconciliation"],
+    targets=[f"{DP}:Entry.update", f"{DP}:Entry.combine", f"{DP}:Entry.__iter__", f"{DP}:Entry.infos"],
+    level="proof", standins=["reconciliation:thl-exh-vs-brute-force"],
+    technique="contract-based deductive verification of the tag clauses of Entry.update / combine / __iter__ (ALL keeps exactly the optimal tags, ANY exactly one); "
+              "solver-level clauses (decode completeness, result sets): bounded stand-in against the brute-force optimal set",
+    not_decided=["every optimal solution is returned / exactly one under ANY at the level of the solvers (decode completeness, re-ranking): bounded stand-in only",
+                 "ordered and unordered super-reconciliation solvers: see C02 / C03"],
 ))
